@@ -123,6 +123,11 @@ def check_spacing_arms(ctx: Ctx) -> None:
     def value_leaf(cur: FuncInfo, e: ast.AST, aliases: frozenset):
         if isinstance(e, ast.Attribute) and e.attr == "tight" and "el" in role_of(e.value, aliases):
             return "AUTHORED"
+        if isinstance(e, (ast.UnaryOp, ast.Compare, ast.BoolOp)):
+            # a boolean computed from the items of the list: `not any(len(i.children) > 1 for i in element.children)`
+            for x in ast.walk(e):
+                if isinstance(x, ast.Attribute) and x.attr == "children" and "el" in role_of(x.value, aliases):
+                    return "ITEMS"
         if isinstance(e, ast.Call):
             # a value computed from the items of the list (element.children ...)
             for a in list(e.args) + [k.value for k in e.keywords] + [e.func]:
